@@ -9,6 +9,7 @@ from __future__ import annotations
 import copy
 import hashlib
 import json
+import logging
 
 import sansldap
 
@@ -32,6 +33,28 @@ class Diverged(Exception):
 
 class HarnessError(Exception):
     pass
+
+
+class _FormatSink(logging.Handler):
+    """Formats every record (so that %r / %s arguments are evaluated) and drops it."""
+
+    def emit(self, record):
+        try:
+            record.getMessage()
+        except Exception:  # noqa: BLE001 - a logging call that cannot be formatted must not hurt the application
+            pass
+
+
+_SINK = _FormatSink()
+
+
+def _set_library_logging(on):
+    """Configuration knob: an application may run with DEBUG logging enabled for the library's loggers."""
+    lg = logging.getLogger("sansldap")
+    if _SINK not in lg.handlers:
+        lg.addHandler(_SINK)
+        lg.propagate = False
+    lg.setLevel(logging.DEBUG if on else logging.WARNING)
 
 
 def _light(x):
@@ -93,6 +116,7 @@ class World:
                 m = values.ct.REGISTER_METHOD[typ]
                 getattr(se.real, m)(values.ct.BY_NAME[typ])
                 se.regs.append(typ)
+        _set_library_logging(bool(init.get("debug_logging")))
         self.pool = {}  # per session: library objects the simulated application keeps across calls
         self.observe_pending = init.get("observe_pending", False)
         self.events = 0
